@@ -325,12 +325,7 @@ Section Dec.
           let* n := local st sf in
           let* _ := check_size work n in
           let* (h, t) := split_at n work in
-          (* with padding the emitted `head = tail` assigns the SHADOWING head: the
-             elements are parsed from the tail *)
-          if padded then
-            let* (vs, _) := loop_while pe lf t [] in Ok (vs, [])
-          else
-            let* (vs, _) := loop_while pe lf h [] in Ok (vs, t)
+          let* (vs, _) := loop_while pe lf h [] in Ok (vs, t)
       | EWUnknown, ShStatic n =>
           let* (vs, w') := loop_count pe lf n work [] in Ok (vs, w')
       | EWUnknown, ShCount cf =>
@@ -461,14 +456,16 @@ Section Dec.
         match f_desc f with
         | Scalar id w =>
             if flag =? cv then
-              let* (x, sp') := get_uint E w (st_span st) in       (* no guard *)
+              let* _ := check_size (st_span st) (w / 8) in
+              let* (x, sp') := get_uint E w (st_span st) in
               Ok (add_val (set_span st sp') id (VNum x))
             else Ok (add_val st id VNull)
         | Typedef id tid =>
             match lookup_decl fl tid with
             | Some (DEnum _ _ w) =>
                 if flag =? cv then
-                  let* (x, sp') := get_uint E w (st_span st) in   (* no guard *)
+                  let* _ := check_size (st_span st) (w / 8) in
+                  let* (x, sp') := get_uint E w (st_span st) in
                   let* _ := enum_check tid x in
                   Ok (add_val (set_span st sp') id (VNum x))
                 else Ok (add_val st id VNull)
